@@ -146,12 +146,23 @@ func (b box) geom() *geom.Bounds {
 }
 
 func boxes(n int) []box {
+	v := make([]float64, n)
+	for i := range v {
+		v[i] = float64(i)
+	}
+	return boxesOver(v)
+}
+
+// boxesOver: every closed box with corners from the ascending value list, and
+// the empty box.
+func boxesOver(v []float64) []box {
 	var o []box
+	n := len(v)
 	for x0 := 0; x0 < n; x0++ {
 		for x1 := x0; x1 < n; x1++ {
 			for y0 := 0; y0 < n; y0++ {
 				for y1 := y0; y1 < n; y1++ {
-					o = append(o, box{float64(x0), float64(y0), float64(x1), float64(y1)})
+					o = append(o, box{v[x0], v[y0], v[x1], v[y1]})
 				}
 			}
 		}
@@ -189,7 +200,7 @@ func main() {
 		return
 	}
 	r := report.New("C04", tier, "model_checking")
-	r.Rule = "E1: every structure tree of the 8 geometry types (members 0..3, ring/line lengths 0..2(3), collections nested to depth 2(3), *Bounds members) x every single and double substitution of {-0,+Inf,-Inf} into a coordinate slot; plus all pairs and triples of the closed boxes over a 4-value lattice per axis and the empty box. Non-trivial = geometry has at least one empty member or a substituted coordinate; box tuples with at least one proper overlap."
+	r.Rule = "E1: every structure tree of the 8 geometry types (members 0..3, ring/line lengths 0..2(3), collections nested to depth 2(3), *Bounds members) x every single and double substitution of {-0,+Inf,-Inf} into a coordinate slot; plus all pairs and triples of the closed boxes over a 4-value lattice per axis and the empty box, and the same over the extended-real lattice {-Inf,-0,1,+Inf} (unbounded boxes and boxes at infinity). Non-trivial = geometry has at least one empty member or a substituted coordinate; box tuples with at least one proper overlap."
 	r.Assumptions = []string{"NaN coordinates are outside the alphabet (min/max semantics undefined)", "a *Bounds used as a geometry has Min<=Max"}
 
 	cfg := geomgen.Config{MaxMembers: 3, Lens: []int{0, 1, 2}, FlatMax: 3, PolyRings: 2, Depth: 2, GCMembers: 2, Bounds: true}
@@ -258,97 +269,102 @@ func main() {
 	r.AddNontrivial(nontrivial)
 
 	// boxes
-	bs := boxes(nb)
-	r.Set("boxes", len(bs))
 	var ntuple, overlapping int64
-	enum.Parallel(len(bs), nil, func(i int) {
-		a := bs[i]
-		// unary
-		ga := a.geom()
-		cp := ga.Copy()
-		cp.Min.X -= 1
-		if !eqBox(ga, a) {
-			r.Violation("box|Copy|aliases", map[string]interface{}{"a": a})
-		}
-		ga.Extend(nil)
-		if !eqBox(ga, a) {
-			r.Violation("box|Extend(nil)|changed", map[string]interface{}{"a": a})
-		}
-		if ga.Empty() != a.empty() {
-			r.Violation("box|Empty|wrong", map[string]interface{}{"a": a})
-		}
-		for _, b := range bs {
-			atomic.AddInt64(&ntuple, 1)
-			ga, gb := a.geom(), b.geom()
-			ga.Extend(gb)
-			if !eqBox(ga, join(a, b)) {
-				r.Violation(fmt.Sprintf("box|Extend|not-join|emptyarg=%v|emptyrecv=%v", b.empty(), a.empty()), map[string]interface{}{"a": a, "b": b, "got": *ga})
+	// two lattices: small integers, and the extended reals {-Inf, -0, 1, +Inf}
+	// (a box may be unbounded or sit at infinity; only Min > Max is empty)
+	lattices := [][]box{boxes(nb), boxesOver([]float64{math.Inf(-1), math.Copysign(0, -1), 1, math.Inf(1)})}
+	r.Set("boxes", len(lattices[0])+len(lattices[1]))
+	bs := lattices[0]
+	for _, bs := range lattices {
+		enum.Parallel(len(bs), nil, func(i int) {
+			a := bs[i]
+			// unary
+			ga := a.geom()
+			cp := ga.Copy()
+			cp.Min.X -= 1
+			if !eqBox(ga, a) {
+				r.Violation("box|Copy|aliases", map[string]interface{}{"a": a})
 			}
-			if !eqBox(gb, b) {
-				r.Violation("box|Extend|argument-modified", map[string]interface{}{"a": a, "b": b})
+			ga.Extend(nil)
+			if !eqBox(ga, a) {
+				r.Violation("box|Extend(nil)|changed", map[string]interface{}{"a": a})
 			}
-			// idempotent
-			ga.Extend(gb)
-			if !eqBox(ga, join(a, b)) {
-				r.Violation("box|Extend|not-idempotent", map[string]interface{}{"a": a, "b": b})
+			if ga.Empty() != a.empty() {
+				r.Violation("box|Empty|wrong", map[string]interface{}{"a": a})
 			}
-			// commutative
-			hb := b.geom()
-			hb.Extend(a.geom())
-			if !eqBox(hb, join(a, b)) {
-				r.Violation(fmt.Sprintf("box|Extend|not-commutative|emptyarg=%v|emptyrecv=%v", a.empty(), b.empty()), map[string]interface{}{"a": a, "b": b})
-			}
-			// Overlaps: closed boxes share a point
-			share := !a.empty() && !b.empty() && a.X0 <= b.X1 && b.X0 <= a.X1 && a.Y0 <= b.Y1 && b.Y0 <= a.Y1
-			if got := a.geom().Overlaps(b.geom()); got != share {
-				r.Violation(fmt.Sprintf("box|Overlaps|got=%v", got), map[string]interface{}{"a": a, "b": b})
-			}
-			// box-box intersection: common rectangle, nil iff no common area
-			if !a.empty() && !b.empty() {
-				ix0, iy0, ix1, iy1 := math.Max(a.X0, b.X0), math.Max(a.Y0, b.Y0), math.Min(a.X1, b.X1), math.Min(a.Y1, b.Y1)
-				area := ix1 > ix0 && iy1 > iy0
-				if area {
-					atomic.AddInt64(&overlapping, 1)
-				}
-				var res geom.Polygonal
-				if p := try(func() { res = a.geom().Intersection(b.geom()) }); p != "" {
-					r.Violation("box|Intersection|panic", map[string]interface{}{"a": a, "b": b, "panic": p})
-					continue
-				}
-				isNil := res == nil
-				if rb, ok := res.(*geom.Bounds); ok && rb == nil {
-					isNil = true
-				}
-				if !area {
-					if !isNil {
-						r.Violation("box|Intersection|non-nil-without-common-area", map[string]interface{}{"a": a, "b": b, "got": fmt.Sprintf("%v", res)})
-					}
-				} else if isNil {
-					r.Violation("box|Intersection|nil-with-common-area", map[string]interface{}{"a": a, "b": b})
-				} else {
-					rb := res.Bounds()
-					if !(rb.Min.X == ix0 && rb.Min.Y == iy0 && rb.Max.X == ix1 && rb.Max.Y == iy1) || math.Abs(res.Area()-(ix1-ix0)*(iy1-iy0)) > 1e-12 {
-						r.Violation("box|Intersection|wrong-rectangle", map[string]interface{}{"a": a, "b": b, "got": fmt.Sprintf("%v", res)})
-					}
-				}
-			}
-			// associativity on triples
-			for _, c := range bs {
+			for _, b := range bs {
 				atomic.AddInt64(&ntuple, 1)
-				l := a.geom()
-				l.Extend(b.geom())
-				l.Extend(c.geom())
-				bc := b.geom()
-				bc.Extend(c.geom())
-				rr := a.geom()
-				rr.Extend(bc)
-				want := join(join(a, b), c)
-				if !eqBox(l, want) || !eqBox(rr, want) {
-					r.Violation(fmt.Sprintf("box|Extend|not-associative|anyempty=%v", a.empty() || b.empty() || c.empty()), map[string]interface{}{"a": a, "b": b, "c": c})
+				ga, gb := a.geom(), b.geom()
+				ga.Extend(gb)
+				if !eqBox(ga, join(a, b)) {
+					r.Violation(fmt.Sprintf("box|Extend|not-join|emptyarg=%v|emptyrecv=%v", b.empty(), a.empty()), map[string]interface{}{"a": a, "b": b, "got": *ga})
+				}
+				if !eqBox(gb, b) {
+					r.Violation("box|Extend|argument-modified", map[string]interface{}{"a": a, "b": b})
+				}
+				// idempotent
+				ga.Extend(gb)
+				if !eqBox(ga, join(a, b)) {
+					r.Violation("box|Extend|not-idempotent", map[string]interface{}{"a": a, "b": b})
+				}
+				// commutative
+				hb := b.geom()
+				hb.Extend(a.geom())
+				if !eqBox(hb, join(a, b)) {
+					r.Violation(fmt.Sprintf("box|Extend|not-commutative|emptyarg=%v|emptyrecv=%v", a.empty(), b.empty()), map[string]interface{}{"a": a, "b": b})
+				}
+				// Overlaps: closed boxes share a point
+				share := !a.empty() && !b.empty() && a.X0 <= b.X1 && b.X0 <= a.X1 && a.Y0 <= b.Y1 && b.Y0 <= a.Y1
+				if got := a.geom().Overlaps(b.geom()); got != share {
+					r.Violation(fmt.Sprintf("box|Overlaps|got=%v", got), map[string]interface{}{"a": a, "b": b})
+				}
+				// box-box intersection: common rectangle, nil iff no common area
+				if !a.empty() && !b.empty() {
+					ix0, iy0, ix1, iy1 := math.Max(a.X0, b.X0), math.Max(a.Y0, b.Y0), math.Min(a.X1, b.X1), math.Min(a.Y1, b.Y1)
+					area := ix1 > ix0 && iy1 > iy0
+					if area {
+						atomic.AddInt64(&overlapping, 1)
+					}
+					var res geom.Polygonal
+					if p := try(func() { res = a.geom().Intersection(b.geom()) }); p != "" {
+						r.Violation("box|Intersection|panic", map[string]interface{}{"a": a, "b": b, "panic": p})
+						continue
+					}
+					isNil := res == nil
+					if rb, ok := res.(*geom.Bounds); ok && rb == nil {
+						isNil = true
+					}
+					if !area {
+						if !isNil {
+							r.Violation("box|Intersection|non-nil-without-common-area", map[string]interface{}{"a": a, "b": b, "got": fmt.Sprintf("%v", res)})
+						}
+					} else if isNil {
+						r.Violation("box|Intersection|nil-with-common-area", map[string]interface{}{"a": a, "b": b})
+					} else {
+						rb := res.Bounds()
+						if !(rb.Min.X == ix0 && rb.Min.Y == iy0 && rb.Max.X == ix1 && rb.Max.Y == iy1) || math.Abs(res.Area()-(ix1-ix0)*(iy1-iy0)) > 1e-12 {
+							r.Violation("box|Intersection|wrong-rectangle", map[string]interface{}{"a": a, "b": b, "got": fmt.Sprintf("%v", res)})
+						}
+					}
+				}
+				// associativity on triples
+				for _, c := range bs {
+					atomic.AddInt64(&ntuple, 1)
+					l := a.geom()
+					l.Extend(b.geom())
+					l.Extend(c.geom())
+					bc := b.geom()
+					bc.Extend(c.geom())
+					rr := a.geom()
+					rr.Extend(bc)
+					want := join(join(a, b), c)
+					if !eqBox(l, want) || !eqBox(rr, want) {
+						r.Violation(fmt.Sprintf("box|Extend|not-associative|anyempty=%v", a.empty() || b.empty() || c.empty()), map[string]interface{}{"a": a, "b": b, "c": c})
+					}
 				}
 			}
-		}
-	})
+		})
+	}
 	r.AddStates(ntuple)
 	r.AddTransitions(ntuple * 3)
 	r.AddNontrivial(overlapping)
